@@ -6,6 +6,10 @@ An abstract program is the `prog` of spec/PassLoop.tla: a list of items
   operand t (a label, possibly l itself, or "*" = the PC symbol; df: operand is t - l)
   {k:asm,pg}: assume dpr:pg (6809) / assume b:pg (65CE02).  A direct-form operand is decoded to its byte only:
   which page that byte lives in is the specification's business (PassLayout EncVal / PageAt).
+  {k:sect,s} {k:ends} {k:fwd,l}: SECTION s / ENDSECTION / FORWARD l (no code).  abs/var/rel carry q: 8 = bare name,
+  9 = name[], n = name[PARENTn] (or the name of that section).  Labels are printed as they are spelled in the
+  program ("la", "LA" are two spellings of one name without -U): which symbol a name denotes is the
+  specification's business (PassLayout Ident / Bind), nothing here knows about scopes beyond printing them.
 A layout is a list (one entry per item) of {a: address, n: size, p: padding bytes in front, v: value encoded}.
 Nothing in here judges: the decoded layout goes to TLC (PassLoop_Obs), which evaluates the declarative
 predicate Valid of the specification on it.
@@ -85,8 +89,12 @@ def _mk():
 DIALECTS = _mk()
 CLASSES = {"68k": ["68000"], "abs": ["6809", "68hc11", "6502"], "86": ["8086"],
            "self68k": ["68000", "msp430"], "selfabs": ["6809", "68hc11", "6502"], "self86": ["8086"],
-           "pageabs": ["6809", "65ce02"]}
-BASECLASS = {"self68k": "68k", "selfabs": "abs", "self86": "86", "pageabs": "abs"}
+           "pageabs": ["6809", "65ce02"],
+           "sectabs": ["6809", "68hc11", "6502"], "nestabs": ["6809", "68hc11", "6502"],
+           "sect68k": ["68000"], "sect86": ["8086"], "sectabsU": ["6809", "6502"]}
+BASECLASS = {"self68k": "68k", "selfabs": "abs", "self86": "86", "pageabs": "abs",
+             "sectabs": "abs", "nestabs": "abs", "sect68k": "68k", "sect86": "86"}
+NOQ, QGLOB = 8, 9
 REFKINDS = ("abs", "var", "rel", "labs", "lvar", "lrel")
 
 
@@ -110,13 +118,28 @@ def def_ids(prog):
     return {j: j for j, it in enumerate(prog, 1) if it["k"] == "def"}
 
 
-def render(prog, org, dia, r):
-    """-> (source text, per-item choices needed by the decoder).  r: random.Random for spelling choices."""
+def render(prog, org, dia, r, anycase=True):
+    """-> (source text, per-item choices needed by the decoder).  r: random.Random for spelling choices.
+    anycase: section names may be written in either case (not under -U)"""
     D = DIALECTS[dia]
     lines = ["\tcpu\t%s" % D.cpu]
     if org:
         lines.append("\t" + D.org % org)
     choice = []
+    open_sects = []         # names of the open sections, innermost last (for name[section] and ENDSECTION name)
+
+    def sname(s):
+        return r.choice([s, s.upper(), s.capitalize()]) if anycase else s
+
+    def qualified(it):
+        q = it.get("q", NOQ)
+        if q == NOQ:
+            return it["l"]
+        if q == QGLOB:
+            return it["l"] + "[]"
+        named = open_sects[len(open_sects) - 1 - q] if q < len(open_sects) else None
+        forms = ["parent%d" % q] + (["parent"] if q == 1 else []) + ([sname(named)] if named else [])
+        return "%s[%s]" % (it["l"], r.choice(forms))
 
     def labelled(label, body):
         form = r.randrange(3)
@@ -155,16 +178,27 @@ def render(prog, org, dia, r):
             labelled(it["l"], body)
             choice.append(None)
         elif k == "abs":
-            lines.append("\t" + D.lines["abs%d" % it["w"]] % it["l"])
+            lines.append("\t" + D.lines["abs%d" % it["w"]] % qualified(it))
             choice.append(None)
         elif k == "var":
             mn = r.choice(sorted(D.var))
-            lines.append("\t%s\t%s" % (mn, it["l"]))
+            lines.append("\t%s\t%s" % (mn, qualified(it)))
             choice.append(mn)
         elif k == "rel":
             mn = r.choice(sorted(D.rel))
-            lines.append("\t%s\t%s" % (mn, it["l"]))
+            lines.append("\t%s\t%s" % (mn, qualified(it)))
             choice.append(mn)
+        elif k == "sect":
+            lines.append("\t%s\t%s" % (r.choice(["section", "SECTION"]), it["s"]))
+            open_sects.append(it["s"])
+            choice.append(None)
+        elif k == "ends":
+            s = open_sects.pop() if open_sects else ""
+            lines.append("\tendsection" + ("\t" + sname(s) if s and r.random() < 0.5 else ""))
+            choice.append(None)
+        elif k == "fwd":
+            lines.append("\t%s\t%s" % (r.choice(["forward", "FORWARD"]), it["l"]))
+            choice.append(None)
         elif k == "fill":
             lines.append("\t" + (D.fill % it["n"] if D.fill else ".byte\t" + ",".join(["0eeh"] * it["n"])))
             choice.append(None)
@@ -245,7 +279,7 @@ def decode(prog, org, dia, choice, img):
             v = word(a, n)
             if k == "labs" and it.get("df") and v >= 1 << (8 * n - 1):
                 v -= 1 << (8 * n)            # a difference of two addresses is a signed quantity
-        elif k in ("equ", "asm"):
+        elif k in ("equ", "asm", "sect", "ends", "fwd"):
             n = 0
         elif k in ("var", "lvar"):
             so, lo = D.var[choice[j - 1]]
